@@ -494,6 +494,22 @@ func genJPEG(rt *rapid.T, maxICC int, exhaustPerm []int) Case {
 			return
 		}
 		for n := rapid.IntRange(0, 2).Draw(rt, "nfill"); n > 0; n-- {
+			switch rapid.IntRange(0, 3).Draw(rt, "fillkind") {
+			case 2: // what real files carry next to the profile: Exif, XMP, MPF, FlashPix, Photoshop resources ...
+				items = append(items, item{kind: "fill", seg: build.Vocab(rapid.SampledFrom(build.VocabKinds).Draw(rt, "vocab"), rapid.IntRange(0, 999).Draw(rt, "vocabvar"))})
+				continue
+			case 3: // APP2 segments that are NOT profile chunks: another identifier (or a near miss of the ICC one),
+				// long enough to have bytes where a chunk keeps its number and total, and those bytes plausible
+				id := rapid.SampledFrom([]string{"MPF\x00MM\x00*\x00\x00\x00\x08", "FPXR\x00\x00\x01\x00\x01\xff\xff\xff", "ICC_PROFILF\x00", "ICC_PROFILE\x01", "icc_profile\x00", "ICC PROFILE\x00", "ICC_PROFILE_", "\x00CC_PROFILE\x00", "ICC_PROFIL\x00\x00"}).Draw(rt, "app2id")
+				tot := 1
+				if len(chunks) > 0 {
+					tot = chunks[0].total
+				}
+				d := append([]byte(id), byte(rapid.IntRange(0, tot+1).Draw(rt, "app2num")), byte(rapid.SampledFrom([]int{tot, tot, 1, 0, 255}).Draw(rt, "app2total")))
+				d = append(d, bytes.Repeat([]byte{0xEE}, rapid.IntRange(0, 40).Draw(rt, "app2len"))...)
+				items = append(items, item{kind: "fill", seg: build.Seg{Marker: 0xE2, Data: d}})
+				continue
+			}
 			m := byte(rapid.SampledFrom([]int{0xE0, 0xE1, 0xED, 0xFE, 0xDB}).Draw(rt, "fillmarker"))
 			d := make([]byte, rapid.IntRange(0, 300).Draw(rt, "filllen"))
 			if m == 0xDB {
@@ -649,7 +665,7 @@ func TestC06(t *testing.T) {
 		fmt.Println("REPLAY case passed")
 		return
 	}
-	ev.Rule("rapid: payloads of boundary-biased sizes (1,2,3,..,4095/4096/4097, 8191-8193, 65518-65521, 65519k±1, 131037-131039, up to 1 MiB quick / 8 MiB thorough), compressible or incompressible or a valid ICC profile (half with random flags, intent, creator, ID; the raw bytes are read again after ICCProfile()/Description() on the same metadata value); PNG iCCP (name 1-79 bytes, store/1/6/9/huffman-only, anywhere before IDAT), JPEG APP2 (1-255 chunks of 1..65519 bytes, ascending/descending/random order, SOF before/between/after, fillers interleaved; every permutation of <= 4 (quick) / 5 (thorough) chunks), WebP VP8X+ICCP (odd/even); no-profile variants; one damage class per case: PNG corrupt deflate (flips/truncation/adler), JPEG missing chunk / out-of-range number / inconsistent total, WebP flag without ICCP / truncated ICCP. Oracle: round trip; (nil,nil); for damage a reference model of the earliest legitimate stopping point (error mandatory before it, validity predicate after it); deflate damage judged by compress/zlib. non-trivial = distinct case with a damage class or a payload > 4096 bytes")
+	ev.Rule("rapid: payloads of boundary-biased sizes (1,2,3,..,4095/4096/4097, 8191-8193, 65518-65521, 65519k±1, 131037-131039, up to 1 MiB quick / 8 MiB thorough), compressible or incompressible or a valid ICC profile (half with random flags, intent, creator, ID; the raw bytes are read again after ICCProfile()/Description() on the same metadata value); PNG iCCP (name 1-79 bytes, store/1/6/9/huffman-only, anywhere before IDAT), JPEG APP2 (1-255 chunks of 1..65519 bytes, ascending/descending/random order, SOF before/between/after, fillers interleaved (plain segments, the real-world application-segment vocabulary - JFIF, Exif, XMP, MPF, FlashPix, Photoshop resources, Adobe - and APP2 segments with another or a near-miss identifier whose bytes 12/13 look like a chunk number and total); every permutation of <= 4 (quick) / 5 (thorough) chunks), WebP VP8X+ICCP (odd/even); no-profile variants; one damage class per case: PNG corrupt deflate (flips/truncation/adler), JPEG missing chunk / out-of-range number / inconsistent total, WebP flag without ICCP / truncated ICCP. Oracle: round trip; (nil,nil); for damage a reference model of the earliest legitimate stopping point (error mandatory before it, validity predicate after it); deflate damage judged by compress/zlib. non-trivial = distinct case with a damage class or a payload > 4096 bytes")
 	ev.Assume("harness builders; compress/zlib decides whether a damaged stream still inflates")
 	maxICC := ev.Pick(1<<20, 8<<20)
 	// all permutations of small chunk counts
